@@ -442,8 +442,59 @@ func (k *kctx) fwht(class string) {
 // ---------- forward DCT ----------
 
 func (k *kctx) fdct(sclass, rclass string) {
-	src := k.bytesOf(sclass, 4*bps+8)
-	ref := k.bytesOf(rclass, 4*bps+8)
+	k.fdctOn(sclass, rclass, k.bytesOf(sclass, 4*bps+8), k.bytesOf(rclass, 4*bps+8))
+}
+
+// fdctNearTie reports whether some rounding shift of the forward DCT of the
+// first 4x4 block is within 1 of a rounding boundary (the inputs on which an
+// off-by-one in a rounding constant becomes visible).
+func fdctNearTie(src, ref []byte) bool {
+	var tmp [16]int
+	near := func(v, m int) bool { r := ((v % m) + m) % m; return r <= 1 || r >= m-2 }
+	hit := false
+	for i := 0; i < 4; i++ {
+		d0 := int(src[0+i*bps]) - int(ref[0+i*bps])
+		d1 := int(src[1+i*bps]) - int(ref[1+i*bps])
+		d2 := int(src[2+i*bps]) - int(ref[2+i*bps])
+		d3 := int(src[3+i*bps]) - int(ref[3+i*bps])
+		a0, a1, a2, a3 := d0+d3, d1+d2, d1-d2, d0-d3
+		tmp[0+i*4] = (a0 + a1) * 8
+		tmp[1+i*4] = (a2*2217 + a3*5352 + 1812) >> 9
+		tmp[2+i*4] = (a0 - a1) * 8
+		tmp[3+i*4] = (a3*2217 - a2*5352 + 937) >> 9
+	}
+	for i := 0; i < 4; i++ {
+		a2, a3 := tmp[4+i]-tmp[8+i], tmp[0+i]-tmp[12+i]
+		if near(a2*2217+a3*5352+12000, 65536) || near(a3*2217-a2*5352+51000, 65536) {
+			hit = true
+		}
+	}
+	return hit
+}
+
+// fdctTies searches random blocks for rounding near-ties of the second pass
+// (probability ~2^-13 per block) and runs the differential on them.
+func (k *kctx) fdctTies(tries, want int) {
+	found := 0
+	for t := 0; t < tries && found < want; t++ {
+		cl := "rand"
+		if t%3 == 1 {
+			cl = "near"
+		}
+		src, ref := k.bytesOf(cl, 4*bps+8), k.bytesOf("rand", 4*bps+8)
+		if t%5 == 0 {
+			ref = k.bytesOf("near", 4*bps+8)
+		}
+		if fdctNearTie(src, ref) {
+			found++
+			k.fdctOn("near-tie", cl, src, ref)
+		}
+	}
+	k.c.Count(fmt.Sprintf("kernel/FTransform/near-tie-blocks-found"))
+	k.c.D.Distribution["kernel/FTransform/near-tie-blocks-found"] += found - 1
+}
+
+func (k *kctx) fdctOn(sclass, rclass string, src, ref []byte) {
 	replay := map[string]any{"kernel": "FTransform", "src": src, "ref": ref}
 	type entry struct {
 		name string
@@ -854,9 +905,9 @@ func kernels(c *Ctx) {
 		names = append(names, v.Name)
 	}
 	c.D.Notes = append(c.D.Notes, "kernel differential: portable vs "+strings.Join(names, ", ")+fmt.Sprintf(" (AVX2 present: %v)", webp.VerifArchHasAVX2()))
-	scale := 1
+	scale := 6
 	if c.Thorough() {
-		scale = 20
+		scale = 120
 	}
 	// fixed witnesses of the _refuted theorems first
 	k.witnesses()
@@ -886,6 +937,14 @@ func kernels(c *Ctx) {
 			}
 		}
 	}
+	// rounding ties of the forward DCT ((x + 1812) >> 9 etc.) are hit by one
+	// block in ~100: many random / near-flat blocks
+	for rep := 0; rep < 700*scale; rep++ {
+		k.fdct("rand", "rand")
+		k.fdct("near", "near")
+		k.fdct("rand", "near")
+	}
+	k.fdctTies(300000*scale, 150*scale)
 	for rep := 0; rep < 10*scale; rep++ {
 		for _, cl := range byteClasses {
 			k.pred(cl)
